@@ -35,7 +35,7 @@ def run(ck, replay=None):
     rng = Rng(ck.seed)
     ck.rule = ('all vectors of length 0..%s over {0,+-1,+-2,3} (real) / 0..%s over {0,+-1,+-i,1+-i} (complex), seeded samples of the longer '
                'ones up to length 7, random integer vectors of length 8..200; every rule defined for the type (and every undefined one for '
-               'the throw clause); non-trivial = length >= 2; distinct by (rule, vector)')
+               'the throw clause); the three-argument prefix overload on every proper prefix of the vectors of length <= 4 (5 thorough) and a random prefix of the long ones; non-trivial = (prefix) length >= 2; distinct by (rule, vector, prefix)')
     st = regen()
     g = st.get('SortGen.v', {'ok': False, 'error': 'not generated'})
     ck.oblige('T-gen SortGen.v (SelectionRule.h tables, BothEnds loop, solver dispatch switches)', g.get('ok'), g.get('error', ''))
@@ -70,6 +70,20 @@ def run(ck, replay=None):
             s = ' '.join('%d %d' % z for z in v)
             for rule in CPLX_RULES:
                 lines.append('csort %d %d %s' % (rule, len(v), s))
+        # the three-argument overload (what the symmetric solvers call with len = nev < ncv): every proper prefix of the short vectors,
+        # a random prefix of the long ones
+        pmax = 5 if ck.tier == 'thorough' else 4
+        for v in real:
+            s = ' '.join(map(str, v))
+            if 1 <= len(v) <= pmax:
+                ks = range(len(v))
+            elif len(v) >= 8:
+                ks = [rng.range(1, len(v) - 1)]
+            else:
+                continue
+            for k in ks:
+                for rule in range(9):
+                    lines.append('argsortk %d %d %d %s' % (rule, len(v), k, s))
         for cls, _, _ in SOLVERS:
             for a in range(9):
                 for b in range(9):
@@ -80,12 +94,26 @@ def run(ck, replay=None):
     if okc:
         rc, cpp = run_lines(exe, lines, timeout=3000)
         ck.oblige('harness ran', rc == 0 and len(cpp) == len(lines), 'rc=%s lines=%d/%d' % (rc, len(cpp), len(lines)))
+        if rc != 0 and len(cpp) <= len(lines):
+            # the harness died (abort / assertion / signal): the input it died on is the failing input if it dies on it alone, too
+            # (the assertion message may have been captured as one more line, hence the two candidates)
+            for j in (len(cpp) - 1, len(cpp)):
+                if 0 <= j < len(lines):
+                    rc1, out1 = run_lines(exe, [lines[j]], timeout=600)
+                    if rc1 != 0:
+                        first_fail = {'cases': [lines[j]], 'observed': 'the process aborts (rc=%s) on this input alone: assertion / out-of-range access instead of an ordering or std::invalid_argument' % rc1,
+                                      'clause': 'ordering primitive returns a permutation / solvers order by the rule or reject it'}
+                        lines = lines[:j]; cpp = cpp[:j]          # judge what was produced before the process died
+                        break
     if okc and okm and len(cpp) == len(lines):
         chk, idx = [], []
         for i, (l, o) in enumerate(zip(lines, cpp)):
             t = l.split()
             if t[0] == 'argsort':
                 chk.append('chk_argsort %s | %s' % (' '.join(t[1:]), o)); idx.append(i)
+            elif t[0] == 'argsortk':
+                k = int(t[3])
+                chk.append('chk_argsort %s %d %s | %s' % (t[1], k, ' '.join(t[4:4 + k]), o)); idx.append(i)
             elif t[0] == 'csort':
                 chk.append('chk_csort any %s | %s' % (' '.join(t[1:]), o)); idx.append(i)
         disp = ['dispatch %s %d' % (nm, r) for nm in ('argsort', 'gen_select', 'gen_sort', 'herm_sort') for r in range(9)]
@@ -97,7 +125,7 @@ def run(ck, replay=None):
             nontriv = 0
             for i in set(idx):
                 t = lines[i].split()
-                ck.count(lines[i], int(t[2]) >= 2)
+                ck.count(lines[i], int(t[3] if t[0] == 'argsortk' else t[2]) >= 2)
             ck.oblige('verified checker accepts every output of argsort / SortEigenvalue (%d checks)' % len(chk), not badc,
                       'case `%s` -> `%s` (%s)' % badc[0] if badc else '')
             if badc:
